@@ -39,6 +39,7 @@ type Obs struct {
 	Locked      string
 	ValidRound  int
 	Valid       string
+	CommitRound int
 	Proposal    string // key of the accepted proposal ("" if none)
 	PropBlock   string
 	Committed   []string // committed block hash (hex) per height, index h-1
@@ -182,7 +183,7 @@ func hexs(b []byte) string { return fmt.Sprintf("%X", b) }
 
 func (e *Engine) observe(n *Node) Obs {
 	rs := n.cs.VerifRS()
-	o := Obs{H: rs.Height, R: rs.Round, Step: rs.Step, LockedRound: rs.LockedRound, ValidRound: rs.ValidRound, Dead: n.dead}
+	o := Obs{H: rs.Height, R: rs.Round, Step: rs.Step, LockedRound: rs.LockedRound, ValidRound: rs.ValidRound, CommitRound: rs.CommitRound, Dead: n.dead}
 	if rs.LockedBlock != nil {
 		o.Locked = e.sys.label(rs.LockedBlock.Hash())
 	}
@@ -253,6 +254,9 @@ func (e *Engine) observe(n *Node) Obs {
 		}
 		o.Held = append(o.Held, e.msgs.intern(e.sys.propMsg(n.val, nil, h, 0, parts, meta.BlockID, false)))
 		if sc := n.bs.LoadSeenCommit(h); sc != nil {
+			// catch-up claim of the reactor's queryMaj23Routine for lagging peers (CatchupCommitRound): +2/3 precommits
+			// for the committed block at the commit round
+			o.Claims = append(o.Claims, e.msgs.intern(e.sys.claimMsg(n.val, h, sc.Round(), types.PrecommitType, sc.BlockID, false)))
 			for i := range sc.Precommits {
 				if sc.Precommits[i] == nil {
 					continue
@@ -332,6 +336,7 @@ func behaviour(o *Obs, nEmitted int) uint64 {
 	d.str(o.Valid)
 	d.str(o.Proposal)
 	d.str(o.PropBlock)
+	d.u64(uint64(o.CommitRound))
 	d.str(o.TO)
 	d.u64(uint64(len(o.Committed)))
 	d.u64(uint64(nEmitted))
